@@ -131,6 +131,11 @@ func (in *Interp) vxCall(p *Path, fr *Frame, name string, args []Val, site ssa.C
 		lo, hi := argInt(p, args[0]), argInt(p, args[1])
 		t := p.vxScalar(KBV, 64, "int")
 		p.assume(p.and(p.bvCmp("bvsge", t, mkInt(int64(lo))), p.bvCmp("bvsle", t, mkInt(int64(hi)))))
+		return withRange(t, int64(lo), int64(hi)), true
+	case "vxF64Range":
+		lo, hi := asTerm(args[0]), asTerm(args[1])
+		t := p.vxScalar(KFP, 64, "f64")
+		p.assume(p.and(p.fpCmp("fp.geq", t, lo), p.fpCmp("fp.leq", t, hi)))
 		return t, true
 	case "vxStr":
 		return p.vxDeclStr(argInt(p, args[0]), false, "str"), true
